@@ -102,8 +102,8 @@ pub fn scenarios(prop: &str, tier: &str) -> Vec<Arc<dyn Scenario>> {
                 "C18" => OracleKind::C18,
                 _ => OracleKind::C20,
             };
-            let mut a = Alphabet::core();
-            if prop == "C07" {
+            let mut a = if quick { Alphabet::lean() } else { Alphabet::core() };
+            if prop == "C07" && !quick {
                 a.leveled = vec![0, 1];
             }
             if prop == "C18" || prop == "C20" {
@@ -125,18 +125,18 @@ pub fn scenarios(prop: &str, tier: &str) -> Vec<Arc<dyn Scenario>> {
             let snap = if prop == "C20" { 1 } else { 0 };
             if quick {
                 v.push(std(
-                    &format!("{prop}-empty-22"),
+                    &format!("{prop}-empty-32"),
                     TreeCfg::small(keys_ab()),
                     a.clone(),
-                    b(2, 2, snap, 1),
+                    b(3, 2, snap, 1),
                     vec![vec![]],
                     oracle,
                 ));
                 v.push(std(
-                    &format!("{prop}-seeds2-11"),
+                    &format!("{prop}-seeds2-22"),
                     TreeCfg::small(keys_ab()),
                     a.clone(),
-                    b(1, 2, 0, 1),
+                    bs(2, 2, 0, 1, 0),
                     seeds_upto(2),
                     oracle,
                 ));
@@ -242,12 +242,16 @@ pub fn scenarios(prop: &str, tier: &str) -> Vec<Arc<dyn Scenario>> {
             }
         }
         "C02" => {
-            let mut a = Alphabet::core();
+            let mut a = if quick { Alphabet::lean() } else { Alphabet::core() };
             a.snap = true;
             a.reopen = false;
             a.clear = true;
             a.drop_ranges = vec![(Bnd::Inc(b"a".to_vec()), Bnd::Inc(b"a".to_vec()))];
             a.ingests = vec![vec![(0, IKind::Val)], vec![(0, IKind::Tomb), (1, IKind::Val)]];
+            if quick {
+                a.ingests.truncate(1);
+                a.movedown.clear();
+            }
             {
                 // a reader opens its snapshot while a merge is running (played from inside the compaction filter)
                 use crate::cfilter::VerdictSpec;
@@ -270,16 +274,16 @@ pub fn scenarios(prop: &str, tier: &str) -> Vec<Arc<dyn Scenario>> {
                     "C02-empty-222",
                     TreeCfg::small(keys_ab()),
                     a.clone(),
-                    b(2, 2, 2, 0),
+                    bs(2, 2, 2, 0, 0),
                     vec![vec![]],
                     OracleKind::C02,
                 ));
                 v.push(std(
-                    "C02-seeds2-112",
+                    "C02-seeds1-112-special",
                     TreeCfg::small(keys_ab()),
                     a.clone(),
-                    b(1, 1, 2, 0),
-                    seeds_upto(2),
+                    bs(1, 1, 2, 0, 1),
+                    seeds_upto(1),
                     OracleKind::C02,
                 ));
             } else {
@@ -311,7 +315,7 @@ pub fn scenarios(prop: &str, tier: &str) -> Vec<Arc<dyn Scenario>> {
         }
         "C02" if false => {}
         "C04" => {
-            let mut a = Alphabet::core();
+            let mut a = if quick { Alphabet::lean() } else { Alphabet::core() };
             a.clear = true;
             a.drop_ranges = vec![(Bnd::Inc(b"a".to_vec()), Bnd::Inc(b"a".to_vec()))];
             a.ingests = vec![vec![(0, IKind::Val)], vec![(0, IKind::Tomb), (1, IKind::Val)]];
@@ -471,7 +475,7 @@ pub fn scenarios(prop: &str, tier: &str) -> Vec<Arc<dyn Scenario>> {
         }
         "C17" => {
             use crate::cfilter::ALL_VERDICTS;
-            let mut a = Alphabet::core();
+            let mut a = if quick { Alphabet::lean() } else { Alphabet::core() };
             a.batch = false;
             a.snap = true;
             a.no_unsnap = true;
@@ -523,7 +527,7 @@ pub fn scenarios(prop: &str, tier: &str) -> Vec<Arc<dyn Scenario>> {
             use crate::blobmc::{Blob, Kind};
             use crate::driver::BlobCfg;
             let kind = if prop == "C08" { Kind::C08 } else { Kind::C09 };
-            let mut a = Alphabet::core();
+            let mut a = if quick { Alphabet::lean() } else { Alphabet::core() };
             a.put_big = true;
             a.snap = true;
             a.no_unsnap = prop == "C08";
@@ -582,7 +586,7 @@ pub fn scenarios(prop: &str, tier: &str) -> Vec<Arc<dyn Scenario>> {
             }
         }
         "C13" => {
-            let mut a = Alphabet::core();
+            let mut a = if quick { Alphabet::lean() } else { Alphabet::core() };
             a.wdel_discipline = true;
             a.snap = true;
             let bd = if quick { b(3, 2, 1, 1) } else { b(4, 3, 2, 1) };
@@ -608,7 +612,7 @@ pub fn scenarios(prop: &str, tier: &str) -> Vec<Arc<dyn Scenario>> {
             }
         }
         "C14" => {
-            let mut a = Alphabet::core();
+            let mut a = if quick { Alphabet::lean() } else { Alphabet::core() };
             a.batch = false;
             a.ingests = ingest_batches();
             a.snap = true;
